@@ -224,10 +224,9 @@ Definition post_init (k : kind) (fs : list (string * pval)) : result node :=
     | None => Err ValueError
     | Some r =>
       if shape_eqb r sh then
-        let w' := match w with
-                  | VArr dt s tok i => if shape_eqb s sh then w else VArr "?" sh (-1) None
-                  | _ => VArr "?" sh (-1) None
-                  end in
+        (* np.ones_like(v_threshold) * w_in: a new array of shape sh whose dtype is numpy's
+           promotion of both dtypes; its content is not modelled (token -1 = derived) *)
+        let w' := VArr "?" sh (-1) None in
         match n with
         | Leaf k' f tin tout => Ok (Leaf k' (assoc_set "w_in" w' f) tin tout)
         | _ => Err OtherError
